@@ -115,6 +115,15 @@ def check(ctx):
                    "the kernel filters missing values when drop_na is set (and the aggregated column has any)" if ok else
                    f"group form passes drop_na={g['drop_na']}: it is not the user's drop_na (and-ed with the same column's is_na().any())",
                    clause="after removing missing values when drop_na is in effect")
+        xn = fn.params[0]
+        allowed = {f"data[{xn}]", f"data[{xn}].as_boolean()", f"data[{xn}].as_float()"}
+        if h == "count":
+            allowed = {f"data[{xn} or '_group_']"}
+        ok = g["data_arg"] in allowed
+        ctx.ob("SIB-7", g["closure"], f"aggregated column {g['data_arg']}", g["call"], ok,
+               "the kernel receives the named column itself" if ok else
+               f"the kernel receives {g['data_arg']} instead of the named column: missing values of the named column are not the ones "
+               f"dropped/propagated", clause="after removing missing values when drop_na is in effect")
         ok = g["group_arg"] == "data._group_"
         ctx.ob("SIB-7", g["closure"], f"group ids {g['group_arg']}", g["call"], ok, "kernel receives the frame's group ids" if ok else
                "kernel does not receive data._group_", nontrivial=False)
